@@ -42,6 +42,7 @@ def build_one(args):
     p = sh(["cargo", "run", "--offline", "--quiet", "--release", "--manifest-path", os.path.join(PROBE, "Cargo.toml"), "--no-default-features", "--features", f, "--target-dir", tdir])
     ev["probe_ok"] = p.returncode == 0
     ev["digests"] = {m.group(1): m.group(2) for m in re.finditer(r"^DIGEST (\d+) ([0-9a-f]+)$", p.stdout, re.M)}
+    ev["ct_digests"] = {m.group(1): m.group(2) for m in re.finditer(r"^DIGESTD (\d+) ([0-9a-f]+)$", p.stdout, re.M)}
     if not ev["probe_ok"]:
         ev["probe_error"] = p.stdout[-800:]
     # 4. negative probes: an item behind a gate that is off must not exist
@@ -98,8 +99,10 @@ def run(tier, seed):
         default = {(tuple(e["sets"]), e["rng"], e["dudect"]): e for e in evs}
         bad = 0
         for e in evs:
-            ref = default.get(((1, 1, 1), True, e["dudect"]))
-            okd = ref is not None and all(e["digests"].get(k) == ref["digests"].get(k) for k in e["digests"])
+            ref = default.get(((1, 1, 1), True, False))
+            refd = default.get(((1, 1, 1), True, True))
+            okd = ref is not None and all(e["digests"].get(k) == ref["digests"].get(k) for k in e["digests"]) and \
+                (not e["dudect"] or (refd is not None and e["ct_digests"] and all(e["ct_digests"].get(k) == refd["ct_digests"].get(k) for k in e["ct_digests"])))
             ok = e["lib_ok"] and e["warnings"] == 0 and e["std_symbols"] == 0 and e["probe_ok"] and okd and all(v == "rejected" for v in e["negative"].values()) \
                 and set(e["digests"]) == {n for n, on in zip(("44", "65", "87"), e["sets"]) if on}
             if not ok:
